@@ -34,6 +34,7 @@ const modPrefix = "github.com/EdgeCast/vflow/zzverif/"
 var (
 	out        = flag.String("out", "", "output directory")
 	renameMain = flag.String("rename-main", "", "rename func main to this (package main)")
+	callRename = flag.String("call-rename", "", "A=B,C=D: calls of the package-level function A become calls of B (the harness supplies B; used for main()'s constructors)")
 	seamsOnly  = flag.Bool("seams-only", false, "rewrite the environment seams only (clock, sockets, signals, queue capacities); leave goroutines, channels and sync alone")
 	tmpN       int
 	usedSched  bool
@@ -349,6 +350,9 @@ var seams = map[string][2]string{
 	"net.ListenUDP": {"zzvenv", "ListenUDP"},
 	"net.UDPConn":   {"zzvenv", "UDPConn"},
 	"signal.Notify": {"zzvenv", "SignalNotify"},
+	"signal.Stop":   {"zzvenv", "SignalStop"},
+	// main() sizes the scheduler to the configured CPU count: the harness decides that, not the code under test
+	"runtime.GOMAXPROCS": {"zzvenv", "GOMAXPROCS"},
 }
 
 func main() {
@@ -415,7 +419,7 @@ func main() {
 			}
 			if se, ok := n.(*ast.SelectorExpr); ok {
 				if id, ok := se.X.(*ast.Ident); ok && id.Obj == nil {
-					if to, ok := seams[id.Name+"."+se.Sel.Name]; ok && (imported[id.Name] == "time" || imported[id.Name] == "net" || imported[id.Name] == "os/signal") {
+					if to, ok := seams[id.Name+"."+se.Sel.Name]; ok && (imported[id.Name] == "time" || imported[id.Name] == "net" || imported[id.Name] == "os/signal" || imported[id.Name] == "runtime") {
 						id.Name, se.Sel.Name = to[0], to[1]
 						usedVenv = true
 					}
@@ -423,6 +427,24 @@ func main() {
 			}
 			return true
 		})
+		if *callRename != "" {
+			ren := map[string]string{}
+			for _, kv := range strings.Split(*callRename, ",") {
+				if p := strings.SplitN(kv, "=", 2); len(p) == 2 {
+					ren[p[0]] = p[1]
+				}
+			}
+			ast.Inspect(f, func(n ast.Node) bool {
+				if ce, ok := n.(*ast.CallExpr); ok {
+					if id, ok := ce.Fun.(*ast.Ident); ok {
+						if to, ok := ren[id.Name]; ok {
+							id.Name = to
+						}
+					}
+				}
+				return true
+			})
+		}
 		for _, d := range f.Decls {
 			switch x := d.(type) {
 			case *ast.FuncDecl:
